@@ -297,6 +297,33 @@ pub fn run(prop: &str, seed: u64, n: usize, outdir: &str, _corpus: Option<&str>)
             }
         }
     }
+    if prop == "C05" && !cfg!(target_feature = "avx2") {
+        // one LARGE dictionary (a 8500 x 8500 connection matrix: an image of about 145 MB): the round
+        // trip must not depend on the size of the image
+        let t0 = std::time::Instant::now();
+        let big = guarded(|| vibrato::SystemDictionaryBuilder::from_readers("a,0,0,1,w\n".as_bytes(), "8500 8500\n0 0 1\n8499 8499 -7\n".as_bytes(), "DEFAULT 0 1 0\n".as_bytes(), "DEFAULT,0,0,1,u\n".as_bytes()));
+        let mut flags: Vec<(String, u8)> = vec![];
+        if let Outcome::Ok(d) = big {
+            let mut img = vec![];
+            let count = d.write(&mut img).unwrap_or(0);
+            flags.push(("large_write_count".into(), (count == img.len() && img.len() > 140_000_000) as u8));
+            match guarded(|| vibrato::Dictionary::read(&img[..])) {
+                Outcome::Ok(d2) => {
+                    flags.push(("large_read_back".into(), 1));
+                    flags.push(("large_same_cost".into(), (d2.verif_conn_cost(8499, 8499) == -7 && d2.verif_conn_cost(0, 0) == 1) as u8));
+                    let mut img2 = vec![];
+                    d2.write(&mut img2).ok();
+                    flags.push(("large_rewrite_same_bytes".into(), (img2 == img) as u8));
+                }
+                _ => flags.push(("large_read_back".into(), 0)),
+            }
+        } else {
+            flags.push(("large_build".into(), 0));
+        }
+        *dist.entry(format!("large_image_seconds_{}", t0.elapsed().as_secs())).or_default() += 1;
+        let term = format!("(Build_c05case {} None {})", 999_999_999u64, clist(&flags, |(k, v)| format!("({}, {})", cstr(k), v)));
+        sh.push_h("large".to_string(), term, "8500 x 8500 matrix connector (image of about 145 MB), one word".to_string());
+    }
     let shards = sh.write_split(outdir, 40)?;
     let mut meta = std::fs::File::create(format!("{}/meta.json", outdir))?;
     let d: Vec<String> = dist.iter().map(|(k, v)| format!("{}:{}", json_str(k), v)).collect();
